@@ -113,7 +113,7 @@ func runCase(run *vh.Run, idx int, c Case) *obs {
 	defer func() {
 		// the Coq case: structured query, reference available, every union selection covers all members (the
 		// null thunder's executor renders for an uncovered member, DESIGN F5, is not part of the model's contract)
-		if c.QueryText != "" || timedOut || g.sync.last == nil || hasPartialUnion(&c, frags) {
+		if searching || c.QueryText != "" || timedOut || g.sync.last == nil || hasPartialUnion(&c, frags) {
 			return
 		}
 		ref, refErr := runReference(&c, w)
@@ -320,6 +320,9 @@ func flatInScope(ss *graphql.SelectionSet, typ string, rets map[string]fedgen.Re
 	return len(ss.Fragments) == 0 || typ == ""
 }
 
+// searching: failing-input search (-search): variants of given cases, oracle only, no Coq cases
+var searching bool
+
 // within runs f in a goroutine and reports whether it finished in time.
 func within(d time.Duration, f func()) bool {
 	done := make(chan struct{})
@@ -355,7 +358,10 @@ func main() {
 	r := vh.NewRng(o.Seed)
 
 	var cases []Case
-	if o.Replay != "" {
+	searching = o.Search != ""
+	if searching {
+		cases = searchCases(o, r)
+	} else if o.Replay != "" {
 		var c Case
 		if vh.ReadReplayCase(o.Replay, &c) {
 			c.Origin = "replay"
@@ -395,6 +401,11 @@ func main() {
 			run.Finish()
 			os.Exit(0)
 		}
+	}
+	if searching {
+		// oracle only
+		run.Finish()
+		return
 	}
 	// refresh: planners swapped while requests run (in a child process, see refresh.go)
 	if o.Replay == "" {
